@@ -50,9 +50,29 @@ def plan(tier):
 
 def gen_body(r, target):
     """A valid document body (no leading ---) of roughly `target` characters."""
-    kind = r.choice(['map', 'map', 'seq', 'seq', 'scalar', 'literal', 'flow', 'anchors', 'nested'])
+    kind = r.choice(['map', 'map', 'seq', 'seq', 'scalar', 'literal', 'flow', 'anchors', 'nested', 'longtoken'])
     w = lambda: r.choice(WORDS)
     lines = []
+    if kind == 'longtoken':
+        # one unbroken token of about `target` characters (unwrapped base64, a very long line, a long anchor / tag):
+        # look-ahead inside a token must not pull more than the token needs
+        tok = ''.join(r.choice('ABCDEFGHIJKLMNOPQRSTUVWXYZabcdefghijklmnopqrstuvwxyz0123456789+/') for _ in range(max(target, 8)))
+        form = r.choice(['plain', 'dquote', 'squote', 'literal', 'keyed', 'anchor', 'tag', 'seqitem'])
+        if form == 'plain':
+            return tok + '\n'
+        if form == 'dquote':
+            return '"' + tok + '"\n'
+        if form == 'squote':
+            return "'" + tok + "'\n"
+        if form == 'literal':
+            return '|\n  ' + tok + '\n'
+        if form == 'keyed':
+            return 'data: ' + tok + '\nafter: x\n'
+        if form == 'anchor':
+            return '- &' + tok[:max(8, min(len(tok), 6000))].replace('+', 'p').replace('/', 's') + ' v\n- w\n'
+        if form == 'tag':
+            return '!<tag:example.com,2000:' + tok[:max(8, min(len(tok), 6000))].replace('+', 'p') + '> v\n'
+        return '- a\n- ' + tok + '\n'
     if kind == 'scalar':
         s = r.choice(['plain text here', '"double \\n quoted"', "'single ''quoted'''", '12345', '~'])
         if target > 80:
